@@ -142,6 +142,13 @@ class Report:
         if self.violations:
             return 1
         if self.undecided:
+            # A function that left the verified subset (or an obligation the solver could not decide) is not a
+            # violation.  Where a bounded stand-in for the same property ran and found nothing, the property is
+            # reported as held on everything explored, with the undecided items listed (stdout and evidence);
+            # without any stand-in the run is undecided (exit 2).
+            if self.bounded and not os.environ.get("VERIF_STRICT_UNDECIDED"):
+                print(f"NOTE property={self.property_id}: {len(self.undecided)} item(s) not decided deductively; decided by the bounded stand-in only")
+                return 0
             return 2
         return 0
 
